@@ -345,11 +345,35 @@ func (c *Ctx) Finish() int {
 			fmt.Printf("KNOWN-FINDING: property=%s %s [key=%s, not reproduced by this run]\n", c.Prop, f.What, f.Key)
 		}
 	}
+	// minimum-observation requirements are judged over the whole tier: a later stage adds the events the
+	// earlier stage of the same run recorded (what this stage alone lacked is reported in the evidence)
+	prevEvents := map[string]int64{}
+	if os.Getenv("VERIF_STAGE") != "" && os.Getenv("VERIF_STAGE_MERGE") != "" {
+		if pb, err := os.ReadFile(filepath.Join(root, "evidence", c.Prop+".json")); err == nil {
+			var prev evidence
+			if json.Unmarshal(pb, &prev) == nil && prev.PropertyID == c.Prop && prev.Tier == c.Tier && prev.Seed == c.Seed {
+				if pe, ok := prev.Coverage["events"].(map[string]interface{}); ok {
+					for k, v := range pe {
+						if f, ok := v.(float64); ok {
+							prevEvents[k] = int64(f)
+						}
+					}
+				}
+			}
+		}
+	}
 	missing := []string{}
+	stageMissing := []string{}
 	for _, r := range c.requirements {
 		if c.events[r.event] < r.min {
-			missing = append(missing, fmt.Sprintf("%s=%d<%d", r.event, c.events[r.event], r.min))
+			stageMissing = append(stageMissing, fmt.Sprintf("%s=%d<%d", r.event, c.events[r.event], r.min))
 		}
+		if c.events[r.event]+prevEvents[r.event] < r.min {
+			missing = append(missing, fmt.Sprintf("%s=%d<%d", r.event, c.events[r.event]+prevEvents[r.event], r.min))
+		}
+	}
+	if len(stageMissing) > 0 && len(missing) == 0 {
+		c.extra["this_stage_below_minimum_observation"] = stageMissing
 	}
 	if len(c.distinct)+len(c.distinctH) < 2 || c.evals < 1 {
 		missing = append(missing, fmt.Sprintf("evaluations=%d distinct=%d", c.evals, len(c.distinct)+len(c.distinctH)))
